@@ -267,6 +267,12 @@ Theorem C14_framing_pins :
 Proof. repeat split; reflexivity. Qed.
 Print Assumptions C14_framing_pins.
 
+(* the status automaton's "reset only from the expected state" is resetToStandby's
+   CompareAndSwap guard in the current source *)
+Theorem C14_reset_guard_pin : relayneg_reset_guard_is_cas = true.
+Proof. exact reset_guard_src_ok. Qed.
+Print Assumptions C14_reset_guard_pin.
+
 (* ---- the defect: the end sign is looked for chunk by chunk ------------------------------ *)
 
 (* what the property wants: whatever the chunking of the client's stream *)
